@@ -445,3 +445,106 @@ func VH_C04_offset_side_Q() {
 	vAssert("C04.offset.starts_on_selected_side", vhNearPt(subs[0].start, first))
 	vAssert("C04.offset.ends_on_selected_side", len(segs) > 0 && vhNearPt(segs[len(segs)-1].end, last))
 }
+
+// C04: MiterJoiner: the join never reaches farther than limit x halfWidth from the vertex: beyond
+// that the gap joiner takes over (or the miter is clipped).  Unit normals and the half width are
+// concrete (all ordered pairs of 7 directions that are neither equal nor opposite, i.e. left and
+// right turns of many angles), the pivot and the limit are symbolic.
+type vhC04Gap struct{ called *bool }
+
+func (g vhC04Gap) Join(rhs, lhs *Path, halfWidth float64, pivot, n0, n1 Point, r0, r1 float64) {
+	*g.called = true
+	BevelJoin.Join(rhs, lhs, halfWidth, pivot, n0, n1, r0, r1)
+}
+
+func (g vhC04Gap) String() string { return "vhC04Gap" }
+
+func VH_C04_miter_Q() {
+	i := vChoose(0, len(vhC04Units)-1)
+	j := vChoose(0, len(vhC04Units)-1)
+	u0, u1 := vhC04Units[i], vhC04Units[j]
+	if i == j || (u0.X == -u1.X && u0.Y == -u1.Y) {
+		return
+	}
+	hw := []float64{0.5, 2}[vChoose(0, 1)]
+	n0, n1 := u0.Mul(hw), u1.Mul(hw)
+	pivot := []Point{{0, 0}, {3, -2}}[vChoose(0, 1)]
+	limit := vNondetF64()
+	vAssume(1 <= limit && limit <= 20)
+	called := false
+	jr := MiterJoiner{Limit: limit, GapJoiner: vhC04Gap{&called}}
+	mk := func(n Point) *Path {
+		s := pivot.Add(n)
+		a := s.Add(n.Mul(2)) // the pen arrives perpendicular to the offset line, so that LineTo never merges the miter tip into the previous record
+		p := &Path{}
+		p.d = append(p.d, MoveToCmd, a.X, a.Y, MoveToCmd, LineToCmd, s.X, s.Y, LineToCmd)
+		return p
+	}
+	rhs, lhs := mk(n0), mk(n0.Neg())
+	nr, nl := len(rhs.d), len(lhs.d)
+	jr.Join(rhs, lhs, hw, pivot, n0, n1, math.NaN(), math.NaN())
+	// the miter tip is only drawn when it stays within max(limit, 1.001) x halfWidth of the
+	// vertex; beyond that the gap joiner takes over
+	lim := math.Max(limit, 1.001) * hw
+	good := true
+	if !called {
+		for _, pth := range []*Path{rhs, lhs} {
+			from := nr
+			if pth == lhs {
+				from = nl
+			}
+			pts, ok := vhC04Tail(pth, from)
+			good = good && ok
+			for _, q := range pts {
+				dx, dy := q.X-pivot.X, q.Y-pivot.Y
+				good = good && dx*dx+dy*dy <= lim*lim*(1+1e-6)
+			}
+		}
+	}
+	vAssert("C04.miter.tip_within_limit_of_vertex", good)
+	vAssert("C04.miter.ends_on_offset_lines", vhNearPt(rhs.Pos(), pivot.Add(n1)) && vhNearPt(lhs.Pos(), pivot.Sub(n1)))
+}
+
+// C04: closed subpaths whose last *curve* already ends at the start point (zero-length Close
+// record) are joined, not capped, and both offset sides come out closed.  Concrete shapes (a lens
+// of two quadratics, a drop of a cubic and a line, a lens after another subpath), half width from
+// a small set; the real offset() runs with recording cappers/joiners.
+// recording joiner without the pen-position asserts of vhC04Joiner (after a curve the pen is only
+// approximately at pivot+n0)
+type vhC04PlainJoiner struct{ rec *vhC04Rec }
+
+func (j vhC04PlainJoiner) Join(rhs, lhs *Path, halfWidth float64, pivot, n0, n1 Point, r0, r1 float64) {
+	j.rec.joins = append(j.rec.joins, vhC04JoinRec{halfWidth, pivot, n0, n1, r0, r1, rhs != lhs})
+	BevelJoin.Join(rhs, lhs, halfWidth, pivot, n0, n1, r0, r1)
+}
+
+func VH_C04_dispatch_curved_closed() {
+	p := &Path{}
+	switch vChoose(0, 2) {
+	case 0: // lens: two quadratics, corner at the start/end point
+		p.d = []float64{MoveToCmd, 0, 0, MoveToCmd, QuadToCmd, 5, 5, 10, 0, QuadToCmd, QuadToCmd, 5, -5, 0, 0, QuadToCmd, CloseCmd, 0, 0, CloseCmd}
+	case 1: // drop: a line and a cubic returning to the start
+		p.d = []float64{MoveToCmd, 0, 0, MoveToCmd, LineToCmd, 10, 0, LineToCmd, CubeToCmd, 10, 8, 0, 8, 0, 0, CubeToCmd, CloseCmd, 0, 0, CloseCmd}
+	default: // same lens, but open (no Close record): caps expected
+		p.d = []float64{MoveToCmd, 0, 0, MoveToCmd, QuadToCmd, 5, 5, 10, 0, QuadToCmd, QuadToCmd, 5, -5, 0, 0, QuadToCmd}
+	}
+	closed := p.Closed()
+	hw := []float64{0.5, 1}[vChoose(0, 1)]
+	before := vhCopyData(p.d)
+	rec := &vhC04Rec{}
+	rhs, lhs := p.offset(hw, vhC04Capper{rec}, vhC04PlainJoiner{rec}, true, 0.01)
+	vAssert("C04.curved.receiver_unchanged", vhSameData(p.d, before))
+	if closed {
+		vAssert("C04.curved.closed_no_caps", len(rec.caps) == 0)
+		// the corner at the start/end point gets a join whose pivot is that point
+		has := false
+		for _, j := range rec.joins {
+			has = has || vhNearPt(j.pivot, Point{0, 0})
+		}
+		vAssert("C04.curved.join_at_closing_corner", has)
+		vAssert("C04.curved.two_closed_sides", rhs != nil && lhs != nil && rhs.Closed() && lhs.Closed())
+	} else {
+		vAssert("C04.curved.open_two_caps", len(rec.caps) == 2)
+		vAssert("C04.curved.open_one_closed_side", rhs != nil && lhs == nil && rhs.Closed())
+	}
+}
